@@ -38,7 +38,7 @@ struct MutexEngine final : Engine {
     const size_t npre = r.chance(0.4) ? pool.size() - r.below(2) : r.below(pool.size() + 1);  // often (nearly) full: nodes sit at a class boundary
     uint64_t vid = 0;
     for (size_t i = 0; i < npre; i++) {
-      Op o; o.kind = M_INSERT; o.key = pool[i]; o.a = static_cast<int64_t>(++vid); o.b = r.range(8, 24);
+      Op o; o.kind = M_INSERT; o.key = pool[i]; o.a = static_cast<int64_t>(++vid); o.b = r.chance(0.12) ? r.range(0, 7) : r.range(8, 24);
       c.prefill.push_back(o);
     }
     std::vector<std::string> focus;
@@ -57,10 +57,12 @@ struct MutexEngine final : Engine {
         o.key2 = pick();
         const auto x = r.below(100);
         if (x < 30) { o.kind = M_GET; o.c = r.range(0, 3); }
-        else if (x < 55) { o.kind = M_INSERT; o.a = (static_cast<int64_t>(t + 1) << 24) | (static_cast<int64_t>(i + 1) << 8) | 1; o.b = r.range(8, 32); }
+        else if (x < 55) { o.kind = M_INSERT; o.a = (static_cast<int64_t>(t + 1) << 24) | (static_cast<int64_t>(i + 1) << 8) | 1; o.b = r.chance(0.15) ? r.range(0, 7) : r.range(8, 32); }
         else if (x < 80) o.kind = M_REMOVE;
-        else if (x < 84) o.kind = M_EMPTY;
-        else if (x < 87) o.kind = M_CLEAR;
+        else if (x < 83) o.kind = M_EMPTY;
+        else if (x < 85) o.kind = M_CLEAR;
+        else if (x < 86) o.kind = M_DUMP;
+        else if (x < 89) o.kind = r.chance(0.5) ? M_MEMUSE : M_NODECOUNTS;
         else { const auto s = r.below(3); o.kind = s == 0 ? M_SCAN : (s == 1 ? M_SCAN_FROM : M_SCAN_RANGE); o.a = r.chance(0.6); o.b = r.chance(0.25) ? r.range(1, 3) : -1; }
         ops.push_back(o);
       }
@@ -83,6 +85,9 @@ struct MutexEngine final : Engine {
       case M_REMOVE: return "remove(" + hex(o.key) + ")";
       case M_EMPTY: return "empty()";
       case M_CLEAR: return "clear()";
+      case M_DUMP: return "dump(ostream)";
+      case M_MEMUSE: return "get_current_memory_use()";
+      case M_NODECOUNTS: return "get_node_counts()";
       case M_SCAN: return std::string("scan(") + (o.a ? "fwd" : "rev") + (o.b > 0 ? ", halt after " + std::to_string(o.b) : "") + ")";
       case M_SCAN_FROM: return "scan_from(" + hex(o.key) + ", " + (o.a ? "fwd" : "rev") + (o.b > 0 ? ", halt after " + std::to_string(o.b) : "") + ")";
       case M_SCAN_RANGE: return "scan_range(" + hex(o.key) + ", " + hex(o.key2) + (o.b > 0 ? ", halt after " + std::to_string(o.b) : "") + ")";
